@@ -343,597 +343,4 @@ theorem dirOK_findLatest {dec : Dec} {fs : List File} {B : Nat} (h : DirOK dec f
       intro r hr
       exact (hgok.2.2.2 r.seq (by simp only [seqsOf, recsOf, List.mem_map]; exact ⟨r, hr, rfl⟩)).2
 
-/-! ### the writer preserves the invariant -/
-
-structure Inv (dec : Dec) (s : State) : Prop where
-  ok : DirOK dec (dir s) s.seq
-  whole : ∀ f, s.cur = some f → ∃ rs, (∀ r ∈ rs, WFRec dec r) ∧ f.data = frames rs
-
-theorem torn_nil : Torn [] := Or.inl rfl
-
-theorem inv_init (dec : Dec) : Inv dec {} := ⟨dirOK_nil _ _, by simp⟩
-
-theorem inv_append {dec : Dec} {s : State} {e : Bytes} (h : Inv dec s)
-    (he : WFRec dec ⟨s.seq + 1, e⟩) : Inv dec (append s e) := by
-  cases hc : s.cur with
-  | none =>
-    have hdir : dir s = s.closed := by simp [dir, hc]
-    have hd : (⟨s.seq + 1, frame ⟨s.seq + 1, e⟩⟩ : File).data = frames [⟨s.seq + 1, e⟩] ++ [] := by
-      simp [frames]
-    have hw : ∀ r ∈ [(⟨s.seq + 1, e⟩ : Rec)], WFRec dec r := by simp [he]
-    have hr := recsOf_eq hw torn_nil hd
-    refine ⟨?_, ?_⟩
-    · simp only [append, hc, dir, Option.toList, List.nil_append]
-      have hok := h.ok; rw [hdir] at hok
-      refine dirOK_snoc hok (Nat.le_succ _) ⟨⟨_, _, hw, torn_nil, hd⟩, Nat.le_refl _, ?_, ?_⟩ ?_
-      · simp [seqsOf, hr]
-      · simp [seqsOf, hr]
-      · intro g hg
-        have := hok.1 g hg
-        exact ⟨by have := this.2.1; simp; omega, fun q hq => by have := (this.2.2.2 q hq).2; simp; omega⟩
-    · intro f hf
-      simp only [append, hc] at hf
-      simp at hf; subst hf
-      exact ⟨[⟨s.seq + 1, e⟩], hw, by simp [frames]⟩
-  | some f =>
-    have hdir : dir s = s.closed ++ [f] := by simp [dir, hc]
-    obtain ⟨rs, hw, hd⟩ := h.whole f hc
-    have hok := h.ok; rw [hdir] at hok
-    obtain ⟨hpre, hbef, hfok⟩ := dirOK_init hok
-    have hrf : recsOf dec f = rs := recsOf_eq hw torn_nil (by simpa using hd)
-    have hw' : ∀ r ∈ rs ++ [(⟨s.seq + 1, e⟩ : Rec)], WFRec dec r := by
-      intro r hr; rcases List.mem_append.mp hr with hr | hr
-      · exact hw r hr
-      · simp at hr; subst hr; exact he
-    have hd' : ({ f with data := f.data ++ frame ⟨s.seq + 1, e⟩ } : File).data
-        = frames (rs ++ [⟨s.seq + 1, e⟩]) ++ [] := by
-      simp [frames_append, frames, hd]
-    have hr' := recsOf_eq hw' torn_nil hd'
-    refine ⟨?_, ?_⟩
-    · simp only [append, hc, dir, Option.toList]
-      refine dirOK_snoc hpre (Nat.le_succ _) ⟨⟨_, _, hw', torn_nil, hd'⟩, ?_, ?_, ?_⟩ ?_
-      · have := hfok.2.1; simp; omega
-      · simp only [seqsOf, hr', List.map_append, List.map_cons, List.map_nil]
-        rw [List.pairwise_append]
-        refine ⟨by have := hfok.2.2.1; simpa [seqsOf, hrf] using this, List.pairwise_singleton _ _, ?_⟩
-        intro a ha b hb
-        simp at hb; subst hb
-        have := (hfok.2.2.2 a (by simpa [seqsOf, hrf] using ha)).2; omega
-      · intro q hq
-        simp only [seqsOf, hr', List.map_append, List.map_cons, List.map_nil, List.mem_append,
-          List.mem_singleton] at hq
-        rcases hq with hq | hq
-        · have := hfok.2.2.2 q (by simpa [seqsOf, hrf] using hq); simp; omega
-        · subst hq; have := hfok.2.1; simp; omega
-      · intro g hg; exact hbef g hg
-    · intro f' hf'
-      simp only [append, hc] at hf'
-      simp at hf'; subst hf'
-      exact ⟨_, hw', by simpa using hd'⟩
-
-theorem inv_flush {dec : Dec} {s : State} (h : Inv dec s) : Inv dec (flush s) := by
-  unfold flush; cases hc : s.cur with
-  | none => simpa [hc] using h
-  | some f => exact ⟨by simpa [dir, hc] using h.ok, fun f' hf' => h.whole f' (by rw [hc]; simpa using hf')⟩
-
-theorem dir_close (s : State) : dir (close s) = dir s := by simp [dir, close]
-
-/-- reopening needs only the directory part (the open file may end in a torn record) -/
-theorem inv_reopen {dec : Dec} {s : State} (h : DirOK dec (dir s) s.seq) :
-    Inv dec (reopen Mode.fixed dec s) ∧ (reopen Mode.fixed dec s).seq ≤ s.seq := by
-  have hd : dir (reopen Mode.fixed dec s) = dir s := by simp [reopen, dir, close]
-  have hc : (close s).closed = dir s := by simp [dir, close]
-  have := dirOK_findLatest h
-  refine ⟨⟨?_, by simp [reopen, close]⟩, ?_⟩
-  · rw [hd]; simpa [reopen, hc] using this.1
-  · simpa [reopen, hc] using this.2
-
-theorem inv_crash {dec : Dec} {s : State} (k : Nat) (h : Inv dec s) :
-    Inv dec (crash Mode.fixed dec s k) ∧ (crash Mode.fixed dec s k).seq ≤ s.seq := by
-  unfold crash
-  cases hc : s.cur with
-  | none => exact inv_reopen h.ok
-  | some f =>
-    simp only
-    have hdir : dir s = s.closed ++ [f] := by simp [dir, hc]
-    obtain ⟨rs, hw, hd⟩ := h.whole f hc
-    have hok := h.ok; rw [hdir] at hok
-    obtain ⟨hpre, hbef, hfok⟩ := dirOK_init hok
-    have hrf : recsOf dec f = rs := recsOf_eq hw torn_nil (by simpa using hd)
-    generalize max s.flushed (min k f.data.length) = k'
-    have hw' : ∀ r ∈ rs.take (fitCount rs k'), WFRec dec r := fun r hr => hw r (List.mem_of_mem_take hr)
-    have hd' : ({ f with data := f.data.take k' } : File).data
-        = frames (rs.take (fitCount rs k')) ++ (cutRecs rs k').2 := by
-      simp only [hd, take_frames, cutRecs_fst]
-    have ht := cutRecs_torn rs k' (fun r hr => (hw r hr).2.1)
-    have hr' := recsOf_eq hw' ht hd'
-    have hsub : ∀ q ∈ seqsOf dec { f with data := f.data.take k' }, q ∈ seqsOf dec f := by
-      intro q hq
-      simp only [seqsOf, hr', hrf, List.mem_map] at hq ⊢
-      obtain ⟨r, hr, rfl⟩ := hq
-      exact ⟨r, List.mem_of_mem_take hr, rfl⟩
-    apply inv_reopen
-    simp only [dir, Option.toList]
-    refine dirOK_snoc hpre (Nat.le_refl _) ⟨⟨_, _, hw', ht, hd'⟩, hfok.2.1, ?_, ?_⟩ hbef
-    · have := hfok.2.2.1
-      simp only [seqsOf, hr', hrf] at this ⊢
-      rw [List.map_take]
-      exact List.Pairwise.sublist (List.take_sublist _ _) this
-    · intro q hq; exact hfok.2.2.2 q (hsub q hq)
-
-theorem inv_close {dec : Dec} {s : State} (h : Inv dec s) : Inv dec (close s) :=
-  ⟨by rw [dir_close]; simpa [close] using h.ok, by simp [close]⟩
-
-/-- entries handed to `append`: frame length fits `u32`, bincode reads them back exactly -/
-def WFEntry (dec : Dec) (e : Bytes) : Prop :=
-  e.length + 12 < 256 ^ 4 ∧ ∀ rest, dec (e ++ rest) = some e.length
-
-theorem flush_seq (s : State) : (flush s).seq = s.seq := by unfold flush; split <;> rfl
-
-theorem append_seq (s : State) (e : Bytes) : (append s e).seq = s.seq + 1 := by simp [append]
-
-theorem inv_step {dec : Dec} {s : State} {n : Nat} (op : Op) (h : Inv dec s) (hn : s.seq ≤ n)
-    (hN : n + 1 < 256 ^ 8) (he : ∀ e ∈ opEntries [op], WFEntry dec e) :
-    Inv dec (step Mode.fixed dec s op) ∧ (step Mode.fixed dec s op).seq ≤ n + 1 := by
-  cases op with
-  | append e =>
-    have hwe := he e (by simp [opEntries])
-    exact ⟨inv_append h ⟨by show s.seq + 1 < 256 ^ 8; omega, hwe.1, hwe.2⟩, by simp [step, append_seq]; omega⟩
-  | flush => exact ⟨inv_flush h, by simp only [step, flush_seq]; omega⟩
-  | checkpoint e =>
-    have hwe := he e (by simp [opEntries])
-    refine ⟨inv_close (inv_flush (inv_append h ⟨by show s.seq + 1 < 256 ^ 8; omega, hwe.1, hwe.2⟩)), ?_⟩
-    have : (close (flush (append s e))).seq = s.seq + 1 := by
-      show (flush (append s e)).seq = s.seq + 1
-      rw [flush_seq, append_seq]
-    simp only [step, this]; omega
-  | reopen => have := inv_reopen (dec := dec) h.ok; exact ⟨this.1, by simp only [step]; omega⟩
-  | crash k => have := inv_crash (dec := dec) k h; exact ⟨this.1, by simp only [step]; omega⟩
-  | setSync b => exact ⟨⟨by simpa [step, dir] using h.ok, fun f hf => h.whole f (by simpa [step] using hf)⟩,
-      by simp [step]; omega⟩
-
-theorem opEntries_cons (op : Op) (ops : List Op) :
-    opEntries (op :: ops) = opEntries [op] ++ opEntries ops := by
-  cases op <;> simp [opEntries]
-
-theorem inv_foldl {dec : Dec} : ∀ (ops : List Op) (s : State) (n : Nat), Inv dec s → s.seq ≤ n →
-    n + ops.length < 256 ^ 8 → (∀ e ∈ opEntries ops, WFEntry dec e) →
-    Inv dec (ops.foldl (step Mode.fixed dec) s) ∧ (ops.foldl (step Mode.fixed dec) s).seq ≤ n + ops.length
-  | [], s, n, h, hn, _, _ => ⟨h, by simpa using hn⟩
-  | op :: ops, s, n, h, hn, hN, he => by
-    rw [opEntries_cons] at he
-    have h1 := inv_step op h hn (by simp at hN; omega) (fun e he' => he e (List.mem_append_left _ he'))
-    have := inv_foldl ops _ (n + 1) h1.1 h1.2 (by simp at hN; omega)
-      (fun e he' => he e (List.mem_append_right _ he'))
-    simp only [List.foldl_cons, List.length_cons]
-    exact ⟨this.1, by have := this.2; omega⟩
-
-theorem inv_run {dec : Dec} (ops : List Op) (hN : ops.length < 256 ^ 8)
-    (he : ∀ e ∈ opEntries ops, WFEntry dec e) : Inv dec (run Mode.fixed dec ops) :=
-  (inv_foldl ops {} 0 (inv_init dec) (Nat.le_refl _) (by simpa using hN) he).1
-
-/-! ### what replay returns on a directory satisfying the invariant -/
-
-theorem replayDir_good {m : Mode} (hm : m.tornIsEnd = true) {dec : Dec} : ∀ (fs : List File),
-    (∀ f ∈ fs, Good dec f) →
-    replayDir m dec (fs.map (·.data)) = ((fs.map (recsOf dec)).flatten, .ok)
-  | [], _ => by simp [replayDir]
-  | f :: fs, h => by
-    simp only [List.map_cons, replayDir, replay_good hm (h f (by simp)), if_true,
-      replayDir_good hm fs (fun g hg => h g (by simp [hg])), List.flatten_cons]
-
-theorem seqs_sorted {dec : Dec} : ∀ (fs : List File) (B : Nat), DirOK dec fs B →
-    (((fs.map (recsOf dec)).flatten).map (·.seq)).Pairwise (· < ·)
-  | [], _, _ => by simp
-  | f :: fs, B, h => by
-    have hp := h.2; rw [List.pairwise_cons] at hp
-    have ih := seqs_sorted fs B ⟨fun g hg => h.1 g (by simp [hg]), hp.2⟩
-    simp only [List.map_cons, List.flatten_cons, List.map_append]
-    rw [List.pairwise_append]
-    refine ⟨(h.1 f (by simp)).2.2.1, ih, ?_⟩
-    intro a ha b hb
-    simp only [List.mem_map, List.mem_flatten] at hb
-    obtain ⟨r, ⟨l, ⟨g, hg, rfl⟩, hr⟩, rfl⟩ := hb
-    have h1 := (hp.1 g hg).2 a ha
-    have h2 := ((h.1 g (by simp [hg])).2.2.2 r.seq (by simp only [seqsOf, List.mem_map]; exact ⟨r, hr, rfl⟩)).1
-    omega
-
-theorem seqs_le {dec : Dec} {fs : List File} {B : Nat} (h : DirOK dec fs B) :
-    ∀ r ∈ (fs.map (recsOf dec)).flatten, r.seq ≤ B := by
-  intro r hr
-  simp only [List.mem_flatten, List.mem_map] at hr
-  obtain ⟨l, ⟨g, hg, rfl⟩, hr⟩ := hr
-  exact ((h.1 g hg).2.2.2 r.seq (by simp only [seqsOf, List.mem_map]; exact ⟨r, hr, rfl⟩)).2
-
-/-! ### a damaged record is reported -/
-
-theorem fromLE_inj : ∀ (l1 l2 : Bytes), l1.length = l2.length → fromLE l1 = fromLE l2 → l1 = l2
-  | [], [], _, _ => rfl
-  | [], _ :: _, h, _ => by simp at h
-  | _ :: _, [], h, _ => by simp at h
-  | a :: l1, b :: l2, hl, h => by
-    simp only [fromLE] at h
-    have ha := a.toNat_lt; have hb := b.toNat_lt
-    have h1 : a.toNat = b.toNat := by omega
-    have h2 : fromLE l1 = fromLE l2 := by omega
-    rw [UInt8.toNat_inj.mp h1, fromLE_inj l1 l2 (by simpa using hl) h2]
-
-theorem xorAll_flip (a c : Bytes) (b m : UInt8) (hm : m ≠ 0) :
-    xorAll (a ++ (b ^^^ m) :: c) ≠ xorAll (a ++ b :: c) := by
-  intro h
-  simp only [xorAll_append, xorAll] at h
-  rw [UInt8.xor_right_inj, UInt8.xor_left_inj] at h
-  have : b ^^^ (b ^^^ m) = b ^^^ b := by rw [h]
-  rw [← UInt8.xor_assoc, UInt8.xor_self, UInt8.zero_xor] at this
-  exact hm this
-
-theorem cksum_flip (a c : Bytes) (b m : UInt8) (hm : m ≠ 0) :
-    cksum (a ++ b :: c) ≠ cksum (a ++ (b ^^^ m) :: c) := by
-  intro h
-  simp only [cksum] at h
-  exact xorAll_flip a c b m hm (UInt8.toNat_inj.mp h).symm
-
-/-- A frame-shaped chunk (length prefix consistent with the entry) whose stored checksum
-bytes do not decode to the XOR of its entry bytes stops the replay with an error, whatever
-the bincode decoder makes of the entry bytes — provided records must fill their frame. -/
-theorem replayFile_badck {m : Mode} (hm : m.exactSize = true) (dec : Dec) (q : Nat) (e ckb post : Bytes)
-    (fuel : Nat) (hL : e.length + 12 < 256 ^ 4) (hc4 : ckb.length = 4) (hne : fromLE ckb ≠ cksum e) :
-    ∃ err, err ≠ End.ok ∧
-      replayFile m dec (fuel + 1) (le 4 (e.length + 12) ++ (le 8 q ++ (e ++ ckb)) ++ post) = ([], err) := by
-  have hbl : (le 8 q ++ (e ++ ckb)).length = e.length + 12 := by simp [le_length, hc4]; omega
-  have ht : (le 4 (e.length + 12) ++ (le 8 q ++ (e ++ ckb)) ++ post).take 4 = le 4 (e.length + 12) := by
-    simp only [List.append_assoc]; exact List.take_left' (le_length 4 _)
-  have hd : (le 4 (e.length + 12) ++ (le 8 q ++ (e ++ ckb)) ++ post).drop 4
-      = (le 8 q ++ (e ++ ckb)) ++ post := by
-    simp only [List.append_assoc]; exact List.drop_left' (le_length 4 _)
-  rw [replayFile]
-  simp only [ht, hd, fromLE_le 4 _ hL]
-  rw [if_neg (by simp [le_length]), if_neg (by rw [List.length_append, hbl]; omega), List.take_left' hbl]
-  unfold parseBody
-  rw [if_neg (by omega), List.drop_left' (le_length 8 q)]
-  cases hdec : dec (e ++ ckb) with
-  | none => exact ⟨.ser, by simp, rfl⟩
-  | some n =>
-    dsimp only
-    by_cases hshort : (le 8 q ++ (e ++ ckb)).length < 8 + n + 4
-    · rw [if_pos hshort]; exact ⟨.ser, by simp, rfl⟩
-    · rw [if_neg hshort]
-      dsimp only
-      by_cases hsz : 8 + n + 4 = e.length + 12
-      · have hn : n = e.length := by omega
-        subst hn
-        have h1 : (e ++ ckb).take e.length = e := List.take_left' rfl
-        have h2 : ((le 8 q ++ (e ++ ckb)).drop (8 + e.length)).take 4 = ckb := by
-          rw [← List.drop_drop, List.drop_left' (le_length 8 q), List.drop_left' rfl,
-            List.take_of_length_le (by omega)]
-        rw [h1, h2, if_pos (by simp [hne.symm])]
-        exact ⟨_, by simp, rfl⟩
-      · rw [if_pos (by simp [hm]; exact Or.inl (by omega))]
-        exact ⟨_, by simp, rfl⟩
-
-/-- the same, after any number of intact records -/
-theorem replayFile_frames_then {m : Mode} {dec : Dec} (rs : List Rec) (hw : ∀ r ∈ rs, WFRec dec r)
-    (fuel : Nat) (rest : Bytes) :
-    replayFile m dec (rs.length + fuel) (frames rs ++ rest)
-      = (rs ++ (replayFile m dec fuel rest).1, (replayFile m dec fuel rest).2) := by
-  induction rs with
-  | nil => simp [frames]
-  | cons r rs ih =>
-    have : (r :: rs).length + fuel = (rs.length + fuel) + 1 := by simp; omega
-    rw [this]
-    simp only [frames, List.append_assoc]
-    rw [replayFile_frame (hw r (by simp)), ih (fun x hx => hw x (by simp [hx]))]
-    simp
-
-/-! ### what each operation does to the records on disk -/
-
-/-- all records of the directory, in replay order -/
-def allRecs (dec : Dec) (s : State) : List Rec := ((dir s).map (recsOf dec)).flatten
-
-theorem allRecs_append {dec : Dec} {s : State} {e : Bytes} (h : Inv dec s)
-    (he : WFRec dec ⟨s.seq + 1, e⟩) : allRecs dec (append s e) = allRecs dec s ++ [⟨s.seq + 1, e⟩] := by
-  cases hc : s.cur with
-  | none =>
-    have hd : (⟨s.seq + 1, frame ⟨s.seq + 1, e⟩⟩ : File).data = frames [⟨s.seq + 1, e⟩] ++ [] := by
-      simp [frames]
-    have hw : ∀ r ∈ [(⟨s.seq + 1, e⟩ : Rec)], WFRec dec r := by simp [he]
-    have hr := recsOf_eq hw torn_nil hd
-    simp only [allRecs, append, hc, dir, Option.toList, List.nil_append, List.map_append, List.map_cons,
-      List.map_nil, List.flatten_append, List.flatten_cons, List.flatten_nil, List.append_nil, hr]
-  | some f =>
-    obtain ⟨rs, hw, hd⟩ := h.whole f hc
-    have hrf : recsOf dec f = rs := recsOf_eq hw torn_nil (by simpa using hd)
-    have hw' : ∀ r ∈ rs ++ [(⟨s.seq + 1, e⟩ : Rec)], WFRec dec r := by
-      intro r hr; rcases List.mem_append.mp hr with hr | hr
-      · exact hw r hr
-      · simp at hr; subst hr; exact he
-    have hd' : ({ f with data := f.data ++ frame ⟨s.seq + 1, e⟩ } : File).data
-        = frames (rs ++ [⟨s.seq + 1, e⟩]) ++ [] := by
-      simp [frames_append, frames, hd]
-    have hr' := recsOf_eq hw' torn_nil hd'
-    simp only [allRecs, append, hc, dir, Option.toList, List.map_append, List.map_cons,
-      List.map_nil, List.flatten_append, List.flatten_cons, List.flatten_nil, List.append_nil, hr', hrf,
-      List.append_assoc]
-
-theorem allRecs_flush (dec : Dec) (s : State) : allRecs dec (flush s) = allRecs dec s := by
-  unfold flush; split <;> simp_all [allRecs, dir]
-
-theorem allRecs_close (dec : Dec) (s : State) : allRecs dec (close s) = allRecs dec s := by
-  simp [allRecs, dir_close]
-
-theorem allRecs_reopen (dec : Dec) (m : Mode) (s : State) : allRecs dec (reopen m dec s) = allRecs dec s := by
-  simp [allRecs, reopen, dir, close]
-
-/-- a crash keeps a prefix of the records (it cuts the file that is being written, which is
-the last one in replay order) -/
-theorem allRecs_crash {dec : Dec} {s : State} (k : Nat) (h : Inv dec s) :
-    allRecs dec (crash Mode.fixed dec s k) <+: allRecs dec s := by
-  unfold crash
-  cases hc : s.cur with
-  | none => simp only; rw [allRecs_reopen]; exact List.prefix_refl _
-  | some f =>
-    simp only
-    obtain ⟨rs, hw, hd⟩ := h.whole f hc
-    have hrf : recsOf dec f = rs := recsOf_eq hw torn_nil (by simpa using hd)
-    generalize max s.flushed (min k f.data.length) = k'
-    have hw' : ∀ r ∈ rs.take (fitCount rs k'), WFRec dec r := fun r hr => hw r (List.mem_of_mem_take hr)
-    have hd' : ({ f with data := f.data.take k' } : File).data
-        = frames (rs.take (fitCount rs k')) ++ (cutRecs rs k').2 := by
-      simp only [hd, take_frames, cutRecs_fst]
-    have ht := cutRecs_torn rs k' (fun r hr => (hw r hr).2.1)
-    have hr' := recsOf_eq hw' ht hd'
-    rw [allRecs_reopen]
-    simp only [allRecs, dir, hc, Option.toList, List.map_append, List.map_cons, List.map_nil,
-      List.flatten_append, List.flatten_cons, List.flatten_nil, List.append_nil, hr', hrf]
-    exact (List.prefix_append_right_inj _).mpr (List.take_prefix _ _)
-
-def noCrash : List Op → Bool
-  | [] => true
-  | .crash _ :: _ => false
-  | _ :: ops => noCrash ops
-
-theorem allRecs_step {dec : Dec} {s : State} (op : Op) (h : Inv dec s)
-    (hw : ∀ e ∈ opEntries [op], WFRec dec ⟨s.seq + 1, e⟩) :
-    List.Sublist ((allRecs dec (step Mode.fixed dec s op)).map (·.entry))
-        ((allRecs dec s).map (·.entry) ++ opEntries [op])
-    ∧ (noCrash [op] = true → (allRecs dec (step Mode.fixed dec s op)).map (·.entry)
-        = (allRecs dec s).map (·.entry) ++ opEntries [op]) := by
-  cases op with
-  | append e =>
-    have := allRecs_append h (hw e (by simp [opEntries]))
-    simp only [step, this, opEntries, List.map_append, List.map_cons, List.map_nil]
-    exact ⟨List.Sublist.refl _, fun _ => trivial⟩
-  | checkpoint e =>
-    have := allRecs_append h (hw e (by simp [opEntries]))
-    simp only [step, allRecs_close, allRecs_flush, this, opEntries, List.map_append, List.map_cons,
-      List.map_nil]
-    exact ⟨List.Sublist.refl _, fun _ => trivial⟩
-  | flush => simp [step, allRecs_flush, opEntries]
-  | reopen => simp [step, allRecs_reopen, opEntries]
-  | setSync b => simp [step, allRecs, dir, opEntries]
-  | crash k =>
-    simp only [step, opEntries, List.append_nil, noCrash]
-    exact ⟨(List.IsPrefix.sublist (allRecs_crash k h)).map _, by simp⟩
-
-theorem noCrash_cons (op : Op) (ops : List Op) :
-    noCrash (op :: ops) = (noCrash [op] && noCrash ops) := by
-  cases op <;> simp [noCrash]
-
-theorem allRecs_foldl {dec : Dec} : ∀ (ops : List Op) (s : State) (n : Nat), Inv dec s → s.seq ≤ n →
-    n + ops.length < 256 ^ 8 → (∀ e ∈ opEntries ops, WFEntry dec e) →
-    List.Sublist ((allRecs dec (ops.foldl (step Mode.fixed dec) s)).map (·.entry))
-        ((allRecs dec s).map (·.entry) ++ opEntries ops)
-    ∧ (noCrash ops = true → (allRecs dec (ops.foldl (step Mode.fixed dec) s)).map (·.entry)
-        = (allRecs dec s).map (·.entry) ++ opEntries ops)
-  | [], s, n, _, _, _, _ => by simp [opEntries]
-  | op :: ops, s, n, h, hn, hN, he => by
-    rw [opEntries_cons] at he ⊢
-    have hN' : n + 1 + ops.length < 256 ^ 8 := by simp at hN; omega
-    have h1 := inv_step op h hn (by omega) (fun e he' => he e (List.mem_append_left _ he'))
-    have hs := allRecs_step op h (fun e he' =>
-      ⟨by show s.seq + 1 < 256 ^ 8; omega, (he e (List.mem_append_left _ he')).1,
-        (he e (List.mem_append_left _ he')).2⟩)
-    have ih := allRecs_foldl ops _ (n + 1) h1.1 h1.2 hN' (fun e he' => he e (List.mem_append_right _ he'))
-    simp only [List.foldl_cons]
-    refine ⟨?_, ?_⟩
-    · have := List.Sublist.trans ih.1 (List.Sublist.append_right hs.1 (opEntries ops))
-      simpa [List.append_assoc] using this
-    · intro hnc
-      rw [noCrash_cons, Bool.and_eq_true] at hnc
-      rw [ih.2 hnc.2, hs.2 hnc.1, List.append_assoc]
-
-/-! ### the history specification on the model's own observations -/
-
-/-- the records a history appends, under the sequence the model assigns at that moment -/
-def appRecs (m : Mode) (dec : Dec) : State → List Op → List Rec
-  | _, [] => []
-  | s, op :: ops => (opEntries [op]).map (fun e => ⟨s.seq + 1, e⟩) ++ appRecs m dec (step m dec s op) ops
-
-theorem step_seq_append (m : Mode) (dec : Dec) (s : State) (e : Bytes) :
-    (step m dec s (.append e)).seq = s.seq + 1 ∧ (step m dec s (.checkpoint e)).seq = s.seq + 1 := by
-  constructor
-  · simp [step, append_seq]
-  · show (flush (append s e)).seq = s.seq + 1
-    rw [flush_seq, append_seq]
-
-theorem appended_trace (m : Mode) (dec : Dec) : ∀ (ops : List Op) (s : State),
-    appended ops (traceObs m dec s ops) = appRecs m dec s ops
-  | [], _ => rfl
-  | op :: ops, s => by
-    have ih := appended_trace m dec ops (step m dec s op)
-    cases op <;>
-      simp [appended, traceObs, appRecs, opEntries, ih, (step_seq_append m dec s _).1,
-        (step_seq_append m dec s _).2]
-
-theorem appRecs_entries (m : Mode) (dec : Dec) : ∀ (ops : List Op) (s : State),
-    (appRecs m dec s ops).map (·.entry) = opEntries ops
-  | [], _ => rfl
-  | op :: ops, s => by
-    rw [opEntries_cons]
-    simp [appRecs, appRecs_entries m dec ops, List.map_map, Function.comp_def]
-
-theorem allRecs_step_rec {dec : Dec} {s : State} (op : Op) (h : Inv dec s)
-    (hw : ∀ e ∈ opEntries [op], WFRec dec ⟨s.seq + 1, e⟩) :
-    List.Sublist (allRecs dec (step Mode.fixed dec s op))
-      (allRecs dec s ++ (opEntries [op]).map (fun e => ⟨s.seq + 1, e⟩)) := by
-  cases op with
-  | append e =>
-    have := allRecs_append h (hw e (by simp [opEntries]))
-    simp [step, this, opEntries]
-  | checkpoint e =>
-    have := allRecs_append h (hw e (by simp [opEntries]))
-    simp [step, allRecs_close, allRecs_flush, this, opEntries]
-  | flush => simp [step, allRecs_flush, opEntries]
-  | reopen => simp [step, allRecs_reopen, opEntries]
-  | setSync b => simp [step, allRecs, dir, opEntries]
-  | crash k =>
-    simp only [step, opEntries, List.map_nil, List.append_nil]
-    exact List.IsPrefix.sublist (allRecs_crash k h)
-
-theorem allRecs_foldl_rec {dec : Dec} : ∀ (ops : List Op) (s : State) (n : Nat), Inv dec s → s.seq ≤ n →
-    n + ops.length < 256 ^ 8 → (∀ e ∈ opEntries ops, WFEntry dec e) →
-    List.Sublist (allRecs dec (ops.foldl (step Mode.fixed dec) s))
-      (allRecs dec s ++ appRecs Mode.fixed dec s ops)
-  | [], s, n, _, _, _, _ => by simp [appRecs]
-  | op :: ops, s, n, h, hn, hN, he => by
-    rw [opEntries_cons] at he
-    have hN' : n + 1 + ops.length < 256 ^ 8 := by simp at hN; omega
-    have h1 := inv_step op h hn (by omega) (fun e he' => he e (List.mem_append_left _ he'))
-    have hs := allRecs_step_rec op h (fun e he' =>
-      ⟨by show s.seq + 1 < 256 ^ 8; omega, (he e (List.mem_append_left _ he')).1,
-        (he e (List.mem_append_left _ he')).2⟩)
-    have ih := allRecs_foldl_rec ops _ (n + 1) h1.1 h1.2 hN' (fun e he' => he e (List.mem_append_right _ he'))
-    simp only [List.foldl_cons, appRecs]
-    have := List.Sublist.trans ih (List.Sublist.append_right hs _)
-    simpa [List.append_assoc] using this
-
-theorem isSubseq_of_sublist : ∀ {a b : List Bytes}, List.Sublist a b → isSubseq a b = true
-  | _, _, .slnil => by simp [isSubseq]
-  | a, _ :: _, .cons x h => by
-    cases a with
-    | nil => simp [isSubseq]
-    | cons y ys =>
-      simp only [isSubseq]
-      split
-      · rename_i heq
-        have : y = x := by simpa using heq
-        subst this
-        exact isSubseq_of_sublist ((List.sublist_cons_self _ _).trans h)
-      · exact isSubseq_of_sublist h
-  | _ :: _, _ :: _, .cons_cons x h => by
-    simp only [isSubseq, beq_self_eq_true, if_true]
-    exact isSubseq_of_sublist h
-
-/-- filtering the appended records by "was delivered" gives back exactly the delivered
-records, because entries are pairwise distinct -/
-theorem filter_of_sublist : ∀ {l app : List Rec}, List.Sublist l app → (app.map (·.entry)).Nodup →
-    app.filter (fun r => (l.map (·.entry)).contains r.entry) = l
-  | _, _, .slnil, _ => rfl
-  | l, _ :: app, .cons a h, hnd => by
-    rw [List.map_cons, List.nodup_cons] at hnd
-    have hna : (l.map (·.entry)).contains a.entry = false := by
-      rw [Bool.eq_false_iff]; intro hc
-      rw [List.contains_iff_mem] at hc
-      exact hnd.1 ((h.map _).subset hc)
-    rw [List.filter_cons, hna]; simp only [Bool.false_eq_true, if_false]
-    exact filter_of_sublist h hnd.2
-  | _ :: l, _ :: app, .cons_cons a h, hnd => by
-    rw [List.map_cons, List.nodup_cons] at hnd
-    rw [List.filter_cons]
-    simp only [List.map_cons, List.contains_cons, beq_self_eq_true, Bool.true_or, if_true]
-    congr 1
-    rw [← filter_of_sublist h hnd.2]
-    apply List.filter_congr
-    intro r hr
-    have : (r.entry == a.entry) = false := by
-      rw [beq_eq_false_iff_ne]; intro heq
-      exact hnd.1 (heq ▸ List.mem_map.mpr ⟨r, hr, rfl⟩)
-    have h2 := filter_of_sublist h hnd.2
-    simp only [this, Bool.false_or]
-    rw [h2]
-
-theorem traceObs_ok (m : Mode) (dec : Dec) : ∀ (ops : List Op) (s : State),
-    ops.length = (traceObs m dec s ops).length ∧
-    (List.zip ops (traceObs m dec s ops)).all (fun (op, (ret, cur)) =>
-      match op with
-      | .append _ => ret == some cur
-      | _ => ret == none) = true
-  | [], _ => by simp [traceObs]
-  | op :: ops, s => by
-    have ih := traceObs_ok m dec ops (step m dec s op)
-    refine ⟨by simp [traceObs, ih.1], ?_⟩
-    simp only [traceObs, List.zip_cons_cons, List.all_cons, ih.2, Bool.and_true]
-    cases op <;> simp
-
-/-! ### helpers of the property theorems (numbering of appended records, replay after an intact prefix, Bool/Prop bridges, toy decoders of the concrete witnesses) -/
-
-/-- records `q+1, q+2, …` for the entries `es` — what consecutive `append`s write -/
-def number (q : Nat) : List Bytes → List Rec
-  | [] => []
-  | e :: es => ⟨q + 1, e⟩ :: number (q + 1) es
-
-theorem number_entries : ∀ (q : Nat) (es : List Bytes), (number q es).map (·.entry) = es
-  | _, [] => rfl
-  | q, e :: es => by simp [number, number_entries (q + 1) es]
-
-theorem number_seqs : ∀ (q : Nat) (es : List Bytes),
-    (number q es).map (·.seq) = (List.range es.length).map (fun i => q + 1 + i)
-  | _, [] => rfl
-  | q, e :: es => by
-    simp only [number, List.map_cons, List.length_cons, List.range_succ_eq_map, number_seqs (q + 1) es,
-      List.map_map]
-    simp only [List.cons.injEq, Nat.add_zero, true_and]
-    apply List.map_congr_left; intro i _; simp; omega
-
-theorem foldl_append_cur : ∀ (es : List Bytes) (s : State) (f : File), s.cur = some f →
-    (es.foldl append s).cur = some ⟨f.name, f.data ++ frames (number s.seq es)⟩
-      ∧ (es.foldl append s).closed = s.closed ∧ (es.foldl append s).seq = s.seq + es.length
-  | [], s, f, h => by simp [number, frames, h]
-  | e :: es, s, f, h => by
-    have h1 : (append s e).cur = some ⟨f.name, f.data ++ frame ⟨s.seq + 1, e⟩⟩ := by simp [append, h]
-    have := foldl_append_cur es (append s e) _ h1
-    simp only [List.foldl_cons, number, frames, append_seq] at this ⊢
-    refine ⟨by rw [this.1]; simp, by rw [this.2.1]; simp [append], by rw [this.2.2]; simp; omega⟩
-
-theorem replayDir_allRecs {dec : Dec} {s : State} (h : Inv dec s) :
-    replayDir Mode.fixed dec (image s) = (allRecs dec s, End.ok) :=
-  replayDir_good (m := Mode.fixed) rfl (dir s) (fun f hf => (h.ok.1 f hf).1)
-
-theorem replay_pre_then {dec : Dec} (pre : List Rec) (hw : ∀ r ∈ pre, WFRec dec r) (rest : Bytes)
-    (P : List Rec × End → Prop)
-    (h : ∀ fuel, P (pre ++ (replayFile Mode.fixed dec (fuel + 1) rest).1,
-        (replayFile Mode.fixed dec (fuel + 1) rest).2)) :
-    P (replay Mode.fixed dec (frames pre ++ rest)) := by
-  have hlen := frames_length_ge pre
-  have : (frames pre ++ rest).length + 1 = pre.length + (((frames pre ++ rest).length - pre.length) + 1) := by
-    simp only [List.length_append]; omega
-  unfold replay
-  rw [this, replayFile_frames_then pre hw]
-  exact h _
-
-theorem strictIncr_iff : ∀ (l : List Nat), strictIncr l = true ↔ l.Pairwise (· < ·)
-  | [] => by simp [strictIncr]
-  | [a] => by simp [strictIncr]
-  | a :: b :: rest => by
-    have ih := strictIncr_iff (b :: rest)
-    simp only [strictIncr, Bool.and_eq_true, decide_eq_true_eq, ih, List.pairwise_cons]
-    constructor
-    · rintro ⟨hab, h1, h2⟩
-      refine ⟨fun x hx => ?_, h1, h2⟩
-      rcases List.mem_cons.mp hx with rfl | hx
-      · exact hab
-      · exact Nat.lt_trans hab (h1 x hx)
-    · rintro ⟨h0, h1, h2⟩
-      exact ⟨h0 b (by simp), h1, h2⟩
-
-theorem delivered_zero (rs : List Rec) : delivered 0 rs = rs := by
-  simp [delivered]
-
-/-- toy decoders for the concrete witnesses: every entry is one byte / is length-prefixed -/
-def dec1 : Dec := fun _ => some 1
-def decLen : Dec := fun b =>
-  match b with
-  | [] => none
-  | n :: rest => if n.toNat ≤ rest.length then some (n.toNat + 1) else none
-
 end SgModel.Wal
